@@ -58,6 +58,7 @@ inductive COp where
   | csAdd (h : Nat) (a : Amount)
   | csExtend (ps : List (Nat × Amount))
   | csClear
+  | csClearFault (n : Nat)                     -- `clear()` while the n-th destructor run panics (caught)
   | joinShared (kinds : List String)
   | joinMut (marker : Int) (kinds : List String)
   | consume (n : Option Nat) (kinds : List String)
@@ -79,6 +80,7 @@ def parseCOp? (ts : List String) : Option COp :=
   | ["cs_add", h, a] => do pure (.csAdd (← parseSlot? h) (← parseAmt? a))
   | "cs_extend" :: ps => (mapM? parsePair? ps).map .csExtend
   | ["cs_clear"] => some .csClear
+  | ["cs_clear_fault", n] => n.toNat?.map .csClearFault
   | "cs_join_shared" :: ks => if kindsOk ks then some (.joinShared ks) else none
   | "cs_join_mut" :: m :: ks => do
     let m ← parseInt? m
@@ -175,6 +177,7 @@ structure CState where
   exp : Std.HashMap Nat Amount := {}
   firstGen : Std.HashMap Nat Int := {}
   monDead : Bool := false
+  faulted : Bool := false                     -- a `clear()` of this case was interrupted by a destructor panic
   -- statistics
   cases : Nat := 0
   lines : Nat := 0
@@ -246,7 +249,7 @@ def changesetLine (st : CState) (line : String) : CState × List String :=
   | ["case", id] =>
     let st := st.closeCase
     ({ st with caseHash := 16, caseRepeat := false, caseJoin := false, caseId := id, lineNo := 0, log := #[], caseMaxIdx := 0,
-               model := ChangeSet.new, diverged := false, exp := {}, firstGen := {}, monDead := false,
+               model := ChangeSet.new, diverged := false, exp := {}, firstGen := {}, monDead := false, faulted := false,
                cases := st.cases + 1 }, [])
   | _ =>
     let st := { st with lineNo := st.lineNo + 1, lines := st.lines + 1 }
@@ -276,6 +279,9 @@ def changesetLine (st : CState) (line : String) : CState × List String :=
         if st.monDead then (st, [])
         else ({ st with monDead := true, mons := st.mons + 1 },
               [s!"MON C16 case={st.caseId} line={st.lineNo} {why} op=[{l}] impl=[{r}]"] ++
+              (if st.faulted then
+                [s!"MON C19 case={st.caseId} line={st.lineNo} C19 change set after a caught destructor panic inside clear(): {why} op=[{l}] impl=[{r}]"]
+               else []) ++
               -- an amount added to a change set is a component value in the sense of C08: leaked / destroyed twice
               (if why.startsWith "amount-neither-yielded-nor-destroyed" || why.startsWith "amount-destroyed-unexpectedly-or-twice" then
                 [s!"MON C08 case={st.caseId} line={st.lineNo} C08 change set: {why} op=[{l}] impl=[{r}]"]
@@ -349,6 +355,29 @@ def changesetLine (st : CState) (line : String) : CState × List String :=
           | x => mfail st (outStr (fun _ => "ok") x)
         let (st, o2) := monDestroyed st (allExp st)
         (st.resetExp, o1 ++ o2)
+      | .csClearFault n =>
+        -- `Vec::clear` keeps destroying the remaining elements while it unwinds and the mask was taken out of the set
+        -- beforehand: the model's `clear` with the result `panic` when at least `n` amounts are destroyed. From here on
+        -- every verdict of the monitor is also a C19 verdict (state after a caught destructor panic).
+        let st := { st with clears := st.clears + 1 }
+        let (st, o1) := match st.model.clear with
+          | .ok (m', d) => cmp st m' [if d.length ≥ max n 1 then "panic" else "ok"] d
+          | x => mfail st (outStr (fun _ => "ok") x)
+        let want := allExp st
+        let (st, o2) :=
+          if sortStrs (implD.map showAmt) == sortStrs (want.map showAmt) then (st, [])
+          else
+            let w := sortStrs (want.map showAmt)
+            let g := sortStrs (implD.map showAmt)
+            match g.find? (fun x => g.count x > w.count x) with
+            | some x => mon { st with faulted := true } s!"amount-destroyed-unexpectedly-or-twice {x}"
+            | none => match w.find? (fun x => w.count x > g.count x) with
+              | some x => mon { st with faulted := true } s!"amount-neither-yielded-nor-destroyed {x}"
+              | none => (st, [])
+        let (st, o3) :=
+          if resT == [if want.length ≥ max n 1 then "panic" else "ok"] then (st, [])
+          else mon { st with faulted := true } "clear-fault-result"
+        ({ st.resetExp with faulted := st.faulted || resT == ["panic"] }, o1 ++ o2 ++ o3)
       | .end =>
         let (st, o1) := cmp st ChangeSet.new ["ok"] st.model.dropAll
         let (st, o2) := monDestroyed st (allExp st)
